@@ -35,7 +35,12 @@ REPO = os.environ.get("VERIF_REPO", "/repo")
 EXTRA_PAD = 7
 BRANCH_BASES_THOROUGH = list(range(0, 137, 8))
 BRANCH_BASES_QUICK = [0, 120, 128]
-RL_BASES_THOROUGH = [0, 8, 128]   # RIP-relative label loads have no short/near switch
+RL_BASES_THOROUGH = [0, 128]   # RIP-relative label loads have no short/near switch
+# rel8-only branches: nothing happens between the small distances and the rel8 limit
+NEAR_BASES_THOROUGH = [0, 8, 112, 120, 128]
+# memory methods that get every Address constructor and both H_any shapes in the thorough tier
+# (one per emission-helper family); the others get offset/array/index/rip + any_array
+FULL_ADDRESS_METHODS = ["movq_ra", "movq_ar", "movl_ra", "movb_ar", "cmpl_ai", "cmpq_ai", "movss_ra", "vmovsd_ra", "vandpd_ra", "lea"]
 RL_BASES_QUICK = [0]
 UNWIND = int(os.environ.get("C07_UNWIND", "6"))
 
@@ -585,6 +590,8 @@ class Gen:
                 is_branch = "branch" in sp
                 if is_branch:
                     bases = BRANCH_BASES_THOROUGH if thorough else BRANCH_BASES_QUICK
+                    if thorough and sp.get("branch") == "short":
+                        bases = NEAR_BASES_THOROUGH
                 else:
                     bases = RL_BASES_THOROUGH if thorough else RL_BASES_QUICK
                 for b in bases:
@@ -594,10 +601,11 @@ class Gen:
                 for c in ("offset", "array"):
                     self.emit_unit("legal_" + c, name, "legal", sig, sp, ops, ctor=c)
                 if thorough:
-                    for c in ("reg", "index", "rip"):
+                    full = name in FULL_ADDRESS_METHODS
+                    for c in (("reg", "index", "rip") if full else ("index", "rip")):
                         if c in self.ctors:
                             self.emit_unit("legal_" + c, name, "legal", sig, sp, ops, ctor=c)
-                    for c in ("array", "index"):
+                    for c in (("array", "index") if full else ("array",)):
                         if c in self.ctors:
                             self.emit_unit("any_" + c, name, "any", sig, sp, ops, ctor=c)
             else:
@@ -653,6 +661,8 @@ def generate(tier, out_dir=None):
                    "branch_distances": "base + 0..=%d for base in %s" % (EXTRA_PAD, BRANCH_BASES_THOROUGH if tier == "thorough" else BRANCH_BASES_QUICK),
                    "branch_pad_max": (BRANCH_BASES_THOROUGH if tier == "thorough" else BRANCH_BASES_QUICK)[-1] + EXTRA_PAD,
                    "rl_distances": "base + 0..=%d for base in %s" % (EXTRA_PAD, RL_BASES_THOROUGH if tier == "thorough" else RL_BASES_QUICK),
+                   "near_branch_bases": NEAR_BASES_THOROUGH if tier == "thorough" else BRANCH_BASES_QUICK,
+                   "full_address_methods": FULL_ADDRESS_METHODS if tier == "thorough" else [],
                    "vec_model_capacity": "32; 64/96/128/176 for label units with longer filler"},
     }
     with open(os.path.join(out_dir, "harnesses.json"), "w") as f:
